@@ -55,13 +55,17 @@ func (c *caseCfg) header() []string {
 }
 
 type peer struct {
-	conn    net.Conn
-	cid     int
-	sent    []byte
-	recv    []byte
-	wclosed bool
-	closed  bool
-	reset   bool
+	dgrams     [][]byte // UDP: datagrams sent, in order
+	delivered  int      // UDP: how many of them have been seen by OnTraffic
+	expReplies [][]byte // UDP: datagrams the handler sent back to this sender
+	gotReplies [][]byte
+	conn       net.Conn
+	cid        int
+	sent       []byte
+	recv       []byte
+	wclosed    bool
+	closed     bool
+	reset      bool
 }
 
 var pcount int
@@ -247,7 +251,7 @@ func runCase(w *tr.Writer, seed uint64, idx int, focus string) {
 	rec := newRecorder()
 	rec.injects = cfg.inject
 	h := &handler{rec: rec, rnd: tr.NewRand(seed*7919 + uint64(idx)), byC: map[gnet.Conn]*connInfo{}, cfg: cfg, w: w,
-		inTraffic: make(chan struct{}, 1), release: make(chan struct{})}
+		inTraffic: make(chan struct{}, 1), release: make(chan struct{}), udpPeers: map[string]*peer{}}
 	vunix.SetHooks(rec)
 	defer vunix.SetHooks(nil)
 
@@ -529,7 +533,11 @@ func runCase(w *tr.Writer, seed uint64, idx int, focus string) {
 				if err != nil {
 					continue
 				}
-				peers = append(peers, &peer{conn: c, cid: -1})
+				np := &peer{conn: c, cid: -1}
+				peers = append(peers, np)
+				h.mu.Lock()
+				h.udpPeers[c.LocalAddr().String()] = np
+				h.mu.Unlock()
 				w.Hist("udp-sender")
 				continue
 			}
@@ -540,12 +548,14 @@ func runCase(w *tr.Writer, seed uint64, idx int, focus string) {
 					sz = 60000
 				}
 				data := rnd.Bytes(sz)
+				h.mu.Lock()
+				p.dgrams = append(p.dgrams, data)
+				h.mu.Unlock()
 				p.conn.Write(data)
-				p.sent = append(p.sent, data...)
 				w.Hist(fmt.Sprintf("udp-send-%d", sz))
 				woken(seq, 300*time.Millisecond)
 			} else {
-				recvSome(p, 65536, 2*time.Millisecond)
+				recvDgrams(p, 2*time.Millisecond)
 			}
 		case cfg.client && len(peers) < cfg.maxConns && (len(lp) == 0 || k < 12):
 			quiet()
@@ -758,9 +768,33 @@ func runCase(w *tr.Writer, seed uint64, idx int, focus string) {
 	rec.mu.Unlock()
 	for _, p := range peers {
 		if !p.closed {
-			recvSome(p, 1<<20, 2*time.Millisecond)
+			if cfg.udp {
+				recvDgrams(p, 5*time.Millisecond)
+			} else {
+				recvSome(p, 1<<20, 2*time.Millisecond)
+			}
 			p.conn.Close()
 		}
+	}
+	if cfg.udp {
+		// C08: every datagram was delivered once, and each sender got back exactly what the handler sent it
+		h.mu.Lock()
+		for _, p := range peers {
+			if p.delivered != len(p.dgrams) && len(rec.injected) == 0 {
+				rec.Fail("udp-delivery", "count", fmt.Sprintf("sender %s: %d datagrams sent, %d OnTraffic events", p.conn.LocalAddr(), len(p.dgrams), p.delivered))
+			}
+			if len(p.gotReplies) != len(p.expReplies) {
+				rec.Fail("udp-reply", "count", fmt.Sprintf("sender %s: handler sent %d datagrams, peer received %d", p.conn.LocalAddr(), len(p.expReplies), len(p.gotReplies)))
+			} else {
+				for i := range p.expReplies {
+					if !bytes.Equal(p.expReplies[i], p.gotReplies[i]) {
+						rec.Fail("udp-reply", "payload", fmt.Sprintf("sender %s: reply #%d differs (%d vs %d bytes)", p.conn.LocalAddr(), i, len(p.expReplies[i]), len(p.gotReplies[i])))
+						break
+					}
+				}
+			}
+		}
+		h.mu.Unlock()
 	}
 	// After Run has returned the framework owns no descriptor any more: requests on stale
 	// connection handles must not touch any (C07).  The ledger is still watching.
@@ -768,8 +802,8 @@ func runCase(w *tr.Writer, seed uint64, idx int, focus string) {
 	stale := append([]*connInfo(nil), h.all...)
 	h.mu.Unlock()
 	for i, ci := range stale {
-		if ci.c == nil || ci.udp || i > 3 {
-			continue
+		if ci.c == nil || ci.udp || cfg.udp || cfg.proto == "udp" || i > 3 {
+			continue // datagram AsyncWrite sends at once from the caller: the recorded staleudp finding
 		}
 		_ = ci.c.Wake(nil)
 		_ = ci.c.Close()
@@ -833,6 +867,19 @@ func (u *udpPeer) Read(b []byte) (int, error)         { n, _, err := u.c.ReadFro
 func (u *udpPeer) Close() error                       { return nil }
 func (u *udpPeer) SetReadDeadline(t time.Time) error  { return u.c.SetReadDeadline(t) }
 func (u *udpPeer) SetWriteDeadline(t time.Time) error { return u.c.SetWriteDeadline(t) }
+
+// recvDgrams reads every datagram currently available on a UDP sender socket
+func recvDgrams(p *peer, d time.Duration) {
+	buf := make([]byte, 70000)
+	for {
+		p.conn.SetReadDeadline(time.Now().Add(d))
+		n, err := p.conn.Read(buf)
+		if err != nil {
+			return
+		}
+		p.gotReplies = append(p.gotReplies, append([]byte(nil), buf[:n]...))
+	}
+}
 
 func finalOracles(rec *recorder, h *handler, cfg *caseCfg, peers []*peer) {
 	rec.mu.Lock()
